@@ -26,6 +26,14 @@ CLAIMS = {
    text="Proof (Lean 4) at the pipeline level: a commit refused by the conflict check changes nothing observable (C15_refused_commit_leaves_no_trace); after any failure (conflict, WAL error, apply error at any entry, in any interleaving) all pipeline invariants still hold, so later commits keep the C05/C17 guarantees (C15_pipeline_survives); the first completion of a batch wins, so a failed batch is never reported committed. The statement 'no write of a failed commit becomes visible' is false of the code for apply failures after a prefix: kernel-checked witness, known finding. Store-level faults are not yet covered: partial.",
    note="Trusted: Lean kernel + standard axioms; transcription of the failure branches of src/commit.rs; mock environment in the correspondence run. Not covered yet: WAL writer state after a failed append, sticky background errors, arena poisoning.",
    technique="Lean 4 invariant proof over failure branches + schedule-controlled fault-injection correspondence", ref="DESIGN.md §6 C15"),
+ "C01": dict(
+   text="Proof (Lean 4, every version list, snapshot set, level and configuration): per-key compaction never changes what a registered snapshot reads (C01_compaction_stable, from compactKey_reads_ok), later commits are invisible to a reader, the counted snapshot tracker keeps every live reader's horizon registered however many readers share it (C01_tracker_covers_live_readers), the component search returns the newest visible version for newest-first components. The per-key rule is a literal port and is compared exhaustively (<=3/4 versions, all snapshot subsets) with the real CompactionIterator; whole histories with shared-start readers and rotation/flush/compaction/reopen placements run on a real Tree against the map specification. Three genuine defects found by this check were repaired (fix: commits).",
+   note="Trusted: Lean kernel + standard axioms; transcription of process_accumulated_versions and of the tracker; the k-way merge and table selection are covered by the differential runs only; the begin-vs-compaction-capture race and thread interleavings inside one step are not explored (partial).",
+   technique="Lean 4 proof of the per-key compaction rule + exhaustive function-level and store-level differential correspondence", ref="DESIGN.md §6 C01"),
+ "C06": dict(
+   text="Proof (Lean 4): compaction preserves the answer of every later reader at every level and configuration (C06_compaction_tip: a dropped tombstone at the last level never lets an older value reappear), keeps the newest version above the last level (C06_nonbottom_keeps_newest), invents nothing (sublist); rearrangements that move whole components (rotation, flush, reopen) leave the flattened version list and hence every answer unchanged. Tied to the code by the exhaustive per-key correspondence and by store-level histories whose physical placements vary while answers are judged against the placement-free specification.",
+   note="Trusted: Lean kernel + standard axioms; transcription of the per-key rule; compaction table selection, range-skip predicates and cache transparency are validated by the store stream, not proved (partial).",
+   technique="Lean 4 proof of placement-independence per key + metamorphic/store-level differential correspondence", ref="DESIGN.md §6 C06"),
 }
 props = [json.loads(l) for l in open('/verif/properties.jsonl')]
 hooks = subprocess.run(["git", "-C", "/repo", "log", "--format=%h %s"], capture_output=True, text=True).stdout.splitlines()
